@@ -159,12 +159,7 @@ def evaluate_during_transform(case):
             after = C.inventory(sc.tree, target) if os.path.exists(target) else C.inventory(sc.tree)
             states += 1
             reached.append(["during_transform", case["at"], case["mutation"], case["mode"], op])
-            # ... and what the command itself had created by then (a temporary file it is still filling: the
-            # stop may fall between its creation and the copy / clone into it) is not the user's data: protected are
-            # the contents the tree had before the command started and what the change itself wrote
-            s0 = set(x["sha"] for x in initial.values() if x["type"] == "file")
-            sb = set(x["sha"] for p, x in before.items() if x["type"] == "file"
-                     and (x["sha"] in s0 or snap["at_pause"].get(p) != x))
+            sb = set(x["sha"] for x in before.values() if x["type"] == "file")
             sa = set(x["sha"] for x in after.values() if x["type"] == "file")
             feat = {"mutation": case["mutation"], "phase": "during_the_transform_of_the_file", "op": op,
                     "target_is_retained_member": changed.endswith("f1"), "isolate": False, "report_from_stdout_fallback": False,
